@@ -495,6 +495,14 @@ class Body:
             return ("callind", self.term_of_operand(t["fn"], depth), args, bb)
         return ("call", names[1] or names[0], args, bb, names[0])
 
+    # -- named view: user variables are atoms ---------------------------------------------
+    def named_view(self):
+        """A view of this body whose term builder stops at user-named locals: they appear as
+        ('local', idx, name) atoms (object identities) instead of being expanded."""
+        if getattr(self, "_nv", None) is None:
+            self._nv = NamedView(self)
+        return self._nv
+
     # -- iteration helpers ------------------------------------------------------------------
     def calls(self):
         """Yield (bb, terminator) for every call."""
@@ -516,6 +524,37 @@ class Body:
         if line is None and bb is not None:
             line = self.blocks[bb]["term"].get("line")
         return "%s:%s" % (self.file, line)
+
+
+DESUGAR_NAMES = ("val", "residual", "iter", "__next")
+
+
+class NamedView(Body):
+    def __init__(self, body):
+        self.__dict__.update(body.__dict__)
+        self._terms = {}
+        self._nv = self
+        self._expanding = None
+
+    def is_atom(self, l):
+        n = self.locals[l]["name"]
+        return n is not None and n not in DESUGAR_NAMES and l > self.argc
+
+    def term_of_local(self, l, depth=0):
+        if self.is_atom(l) and l != self._expanding:
+            return ("local", l, self.locals[l]["name"])
+        return Body.term_of_local(self, l, depth)
+
+    def definition(self, l):
+        """Term of the (single) definition of named local l, one level expanded."""
+        saved, self._expanding = self._expanding, l
+        self._terms.pop(l, None)
+        try:
+            t = Body.term_of_local(self, l, 0)
+        finally:
+            self._expanding = saved
+            self._terms.pop(l, None)
+        return t
 
 
 # ---------------------------------------------------------------------------------------------
@@ -605,6 +644,8 @@ def fmt(t, depth=0):
         return t[2] or "arg%d" % t[1]
     if tag == "var":
         return (t[2] or "_%d" % t[1]) + "'"
+    if tag == "local":
+        return "%s#%d" % (t[2], t[1])
     if tag == "const":
         v = t[1]
         if isinstance(v, int) and not isinstance(v, bool) and v > 9:
